@@ -246,7 +246,83 @@ def tier_b(run, thorough):
 
 # =====================================================================================================
 # tier C: numeric oracles (shrinkage, PSD, inverse, list plumbing, dof, agreement)
+#
+# dimension sweeps (keys of the case dicts; absent key = the plain float64 / unit-scale / list-container case):
+#   dtype        residuals / measurements typed int64, int32, int16, uint8, float32: the estimate is the one of the same values as
+#                float64 (the statement's covariance is a real-valued quantity; integer data must not truncate means / residuals)
+#   scale        uniform positive unit change (1e-26 .. 1e+12): every estimate scales by scale**2 (full / diag by the statement;
+#                the shrinkage estimates must stay convex combinations with intensity in [0,1], and -- unit invariance -- the same
+#                ones as in unit scale: an absolute threshold on a variance-like quantity is what this guards against)
+#   chscale      channels in different units (full / diag / shrinkage_diag rescale entry-wise; shrinkage_eye is judged in the scaled
+#                domain relative to its largest entry)
+#   const_channel / dup_channel / n == 1   zero-variance and perfectly correlated channels, a single residual row
+#   labels, container, extra, dof          label types (str, non-contiguous / negative ints, floats, bool), descriptor containers
+#                (list / ndarray / tuple), further descriptors present, dof passed in -- for the dataset based estimators
+#   container / dofcontainer / dofscalar   list / tuple / 3-D array of inputs, dof as list / tuple / ndarray, numpy / float scalars
+#   call sequences (C14/sequence), environment (C14/hashseed)
 # =====================================================================================================
+_INT_DTYPES = ('int64', 'int32', 'int16', 'uint8')
+METHODS = ('full', 'diag', 'shrinkage_eye', 'shrinkage_diag')
+
+
+def _typed_units(X, case):
+    """(Xin, Xu, norm, ne, Xe, tm) for the unit-scale float64 matrix X and the `dtype` / `scale` / `chscale` keys of the case:
+    Xin   what is handed to the library (X in the case's dtype and units)
+    Xu    EXACTLY the values of Xin as float64, in unit scale (the statement's covariance is computed from these)
+    norm  p x p: covariance(Xin) == norm * covariance(Xu) entry-wise
+    Xe,ne shrinkage_eye is not equivariant under per-channel units: it is judged on Xe = Xin / (largest unit), its estimate
+          divided by the scalar ne (without chscale Xe == Xu and ne == scale**2)
+    tm    tolerance multiplier (float32 input: the library may compute full / diag in float32)"""
+    dt = case.get('dtype')
+    scale = float(case.get('scale', 1.0))
+    p = X.shape[1]
+    ch = np.ones(p)
+    if case.get('chscale') is not None:
+        ch = np.array([case['chscale'][j % len(case['chscale'])] for j in range(p)], dtype=float)
+    if dt in _INT_DTYPES:
+        X = np.round(4 * X)
+        if dt == 'uint8':
+            X = np.clip(X + 100, 0, 255)
+        if case.get('const_channel') is None and X.shape[0] > 1:
+            X[0, np.ptp(X, axis=0) == 0] += 1         # rounding must not create a channel without variance (a class of its own)
+        Xin = X.astype(dt)
+        Xu = Xin.astype(np.float64)
+        return Xin, Xu, np.ones((p, p)), 1.0, Xu, 1.0
+    Xin = (X * scale * ch).astype(dt or 'float64')
+    Xu = Xin.astype(np.float64) / scale / ch
+    return Xin, Xu, scale ** 2 * np.outer(ch, ch), (scale * ch.max()) ** 2, Xu * (ch / ch.max()), (1e4 if dt == 'float32' else 1.0)
+
+
+def _relabel(idx, kind, C):
+    """condition indices 0..C-1 -> labels of the given kind (first-appearance order generally differs from sorted order)"""
+    if kind in (None, 'int'):
+        names = list(range(C))
+    elif kind == 'str':
+        names = ['b', 'c', 'a', 'cond10', 'cond9', 'B', '', 'zz'][:C]
+    elif kind == 'gap':
+        names = [10, -3, 7, 1000, 0, -1, 5, 2][:C]
+    elif kind == 'float':
+        names = [0.5, 1.5, -2.0, 0.25, 1e3, -0.125, 3.0, 7.5][:C]
+    elif kind == 'bool':
+        names = [True, False][:C]
+    else:
+        names = list(kind)
+    if kind in ('str', 'gap', 'float'):
+        names = names + [{'str': 'n%d' % i, 'gap': 2000 - 3 * i, 'float': 10.5 + i / 4}[kind] for i in range(max(0, C - len(names)))]
+    assert len(names) >= C and len(set(names)) == len(names)
+    return [names[i] for i in idx]
+
+
+def _contain(lab, container):
+    if container in (None, 'list'):
+        return list(lab)
+    if container == 'tuple':
+        return tuple(lab)
+    if container == 'ndarray':
+        return np.array(lab)
+    raise ValueError(container)
+
+
 def _balanced_ds(rs, C, R, P, order='sorted'):
     from rsatoolbox.data import Dataset
     labels = np.repeat(np.arange(C), R)
@@ -262,6 +338,55 @@ def _spec_cov(resid, dof):
     return resid.T @ resid / dof
 
 
+def _sym_psd(name, Mx, tol=1.0):
+    if not np.all(np.isfinite(Mx)):
+        return f'{name}: estimate is not finite'
+    if not close(Mx, Mx.T, 1e-10 * tol):
+        return f'{name}: not symmetric'
+    ev = np.linalg.eigvalsh((Mx + Mx.T) / 2)
+    if ev.min() < -1e-8 * tol * max(1.0, ev.max()):
+        return f'{name}: not positive semi-definite (min eigenvalue {ev.min()})'
+    return None
+
+
+def _judge(est, res, d, m, tol=1.0):
+    """est (unit scale, float64) against the statement for method m, residual matrix res (already around its means), dof d"""
+    n, p = res.shape
+    S = _spec_cov(res, d)
+    if m == 'full':
+        return None if close(est, S, 1e-9 * tol) else f'full: not the residual covariance with dof={d}'
+    if m == 'diag':
+        return None if close(est, np.diag(np.diag(S)), 1e-9 * tol) else 'diag: not the diagonal of the residual covariance'
+    r = _sym_psd(m, est, tol)
+    if r:
+        return r
+    if m == 'shrinkage_eye':
+        Sn = S * d / n
+        mI = np.trace(Sn) / p * np.eye(p)
+        A = est * d / n
+        if not close(np.trace(A), np.trace(Sn), 1e-8 * tol):
+            return 'shrinkage_eye: trace differs from the trace of the sample covariance (the target has equal trace)'
+        den = np.sum((Sn - mI) ** 2)
+        if den > 1e-12:
+            lam = np.sum((Sn - A) * (Sn - mI)) / den
+            if not (-1e-9 * tol <= lam <= 1 + 1e-9 * tol):
+                return f'shrinkage_eye: shrinkage intensity {lam} outside [0,1]'
+            if not close(A, lam * mI + (1 - lam) * Sn, 1e-8 * tol):
+                return 'shrinkage_eye: not a convex combination of the sample covariance and the scaled identity'
+        return None
+    if not close(np.diag(est), np.diag(S), 1e-9 * tol):
+        return 'shrinkage_diag: diagonal differs from the sample variances'
+    off = ~np.eye(p, dtype=bool)
+    den = np.sum(S[off] ** 2)
+    if den > 1e-12:
+        lam = 1 - np.sum(est[off] * S[off]) / den
+        if not (-1e-9 * tol <= lam <= 1 + 1e-9 * tol):
+            return f'shrinkage_diag: shrinkage intensity {lam} outside [0,1]'
+        if not close(est[off], (1 - lam) * S[off], 1e-8 * tol):
+            return 'shrinkage_diag: off-diagonals are not a common multiple (1-lambda) of the sample covariances'
+    return None
+
+
 @oracle('C14/estimators')
 def orc_estimators(case):
     import rsatoolbox.data.noise as noise
@@ -270,54 +395,126 @@ def orc_estimators(case):
     X = rs.randn(n, p) @ (np.eye(p) + 0.5 * rs.randn(p, p))
     if case.get('squarewave'):
         X = np.sign(rs.randn(n, 1)) * np.ones((1, p)) + 1e-3 * rs.randn(n, p)
+    if case.get('const_channel') is not None:
+        X[:, case['const_channel']] = 2.0
+    if case.get('dup_channel') is not None:
+        X[:, case['dup_channel'][1]] = X[:, case['dup_channel'][0]]
+    X, Xu, norm, ne, Xe, tm = _typed_units(X, case)
     keep = X.copy()
     dof = case.get('dof')
-    Xc = X - X.mean(0, keepdims=True)
+    Xc = Xu - Xu.mean(0, keepdims=True)
     d = (n - 1) if dof is None else dof
     S = _spec_cov(Xc, d)
-    out = {}
-    for m in ('full', 'diag', 'shrinkage_eye', 'shrinkage_diag'):
-        out[m] = noise.cov_from_residuals(X, dof=dof, method=m)
-        if not np.array_equal(X, keep):
+    raw = {}
+    for m in METHODS:
+        raw[m] = noise.cov_from_residuals(X, dof=dof, method=m)
+        if not (np.array_equal(X, keep) and X.dtype == keep.dtype):
             return f'{m}: input array was modified'
-    if not close(out['full'], S, 1e-9):
+        if not (isinstance(raw[m], np.ndarray) and raw[m].shape == (p, p)):
+            return f'{m}: estimate is not a {p}x{p} array'
+    held = {m: raw[m].copy() for m in METHODS}
+    out = {m: np.asarray(raw[m], dtype=np.float64) / (ne if m == 'shrinkage_eye' else norm) for m in METHODS}
+    if not close(out['full'], S, 1e-9 * tm):
         return f'full: not the residual covariance with dof={d}'
-    if not close(out['diag'], np.diag(np.diag(S)), 1e-9):
+    if not close(out['diag'], np.diag(np.diag(S)), 1e-9 * tm):
         return 'diag: not the diagonal of the full estimate'
     # shrinkage_eye: convex combination of S_n (scaled) with m*I ; shrinkage_diag: off-diagonals scaled by (1-lambda)
-    Sn = Xc.T @ Xc / n
+    Xec = Xe - Xe.mean(0, keepdims=True)
+    Sn = Xec.T @ Xec / n
     mI = np.trace(Sn) / p * np.eye(p)
     A = out['shrinkage_eye'] * d / n
     den = np.sum((Sn - mI) ** 2)
+    lam_eye = lam_diag = None
     if den > 1e-12:
-        lam = np.sum((Sn - A) * (Sn - mI)) / den
-        if not (-1e-9 <= lam <= 1 + 1e-9):
+        lam = lam_eye = np.sum((Sn - A) * (Sn - mI)) / den
+        if not (-1e-9 * tm <= lam <= 1 + 1e-9 * tm):
             return f'shrinkage_eye: shrinkage intensity {lam} outside [0,1]'
-        if not close(A, lam * mI + (1 - lam) * Sn, 1e-8):
+        if not close(A, lam * mI + (1 - lam) * Sn, 1e-8 * tm):
             return 'shrinkage_eye: not a convex combination of the sample covariance and the scaled identity'
+    elif not close(A, Sn, 1e-5):
+        return 'shrinkage_eye: the sample covariance equals its target (scaled identity of equal trace) but the estimate differs from it'
     B = out['shrinkage_diag']
-    if not close(np.diag(B), np.diag(S), 1e-9):
+    if not close(np.diag(B), np.diag(S), 1e-9 * tm):
         return 'shrinkage_diag: diagonal differs from the sample variances'
     off = ~np.eye(p, dtype=bool)
     den = np.sum(S[off] ** 2)
     if den > 1e-12:
-        lam = 1 - np.sum(B[off] * S[off]) / den
-        if not (-1e-9 <= lam <= 1 + 1e-9):
+        lam = lam_diag = 1 - np.sum(B[off] * S[off]) / den
+        if not (-1e-9 * tm <= lam <= 1 + 1e-9 * tm):
             return f'shrinkage_diag: shrinkage intensity {lam} outside [0,1]'
-        if not close(B[off], (1 - lam) * S[off], 1e-8):
+        if not close(B[off], (1 - lam) * S[off], 1e-8 * tm):
             return 'shrinkage_diag: off-diagonals are not a common multiple (1-lambda) of the sample covariances'
+    elif not close(B[off], 0 * S[off], 1e-5):
+        return 'shrinkage_diag: the sample covariance is diagonal but the estimate has off-diagonal entries'
     for m, Mx in out.items():
-        if not close(Mx, Mx.T, 1e-10):
-            return f'{m}: not symmetric'
-        ev = np.linalg.eigvalsh((Mx + Mx.T) / 2)
-        if ev.min() < -1e-8 * max(1.0, ev.max()):
-            return f'{m}: not positive semi-definite (min eigenvalue {ev.min()})'
+        r = _sym_psd(m, Mx, tm)
+        if r:
+            return r
+        # positive definite whenever shrinkage is active: min eigenvalue >= lambda * (smallest eigenvalue of the target)
+        lam, floor = (lam_eye, np.trace(Sn) / p * n / d) if m == 'shrinkage_eye' else (lam_diag, np.diag(S).min())
+        if m.startswith('shrinkage') and lam is not None and lam > 1e-6 and floor > 0:
+            ev = np.linalg.eigvalsh((Mx + Mx.T) / 2)
+            if ev.min() < lam * floor * (1 - 1e-6) - 1e-12 * ev.max():
+                return (f'{m}: shrinkage is active (intensity {lam:.4g}) but the smallest eigenvalue {ev.min():.4g} is below '
+                        f'intensity * smallest target eigenvalue {lam * floor:.4g}')
         if m.startswith('shrinkage') or n - 1 >= p:
-            if np.linalg.cond(Mx) < 1e12:
+            cond = np.linalg.cond(raw[m])
+            if cond < 1e12:
                 pr = noise.prec_from_residuals(X, dof=dof, method=m)
-                if not close(pr @ Mx, np.eye(p), 1e-6):
+                if not np.array_equal(X, keep):
+                    return f'{m}: prec_from_residuals modified its input'
+                # float32 estimates are inverted in float32: the residual of the product grows with the condition number
+                if not close(pr @ raw[m].astype(np.float64), np.eye(p), 1e-6 if tm == 1.0 else max(1e-4, 2e-6 * cond)):
                     return f'{m}: precision is not the inverse of the covariance'
+    # unit / dtype invariance: the estimate for typed or re-scaled data is the one for the same values as float64 in unit scale
+    if case.get('dtype') or case.get('scale') is not None:
+        for m in METHODS:
+            if m == 'shrinkage_eye' and case.get('chscale') is not None:
+                continue
+            ref = noise.cov_from_residuals(Xu.copy(), dof=dof, method=m)
+            if not close(out[m], ref, 1e-7 * tm):
+                dev = float(np.max(np.abs(out[m] - ref)) / max(np.max(np.abs(ref)), 1e-300))
+                return (f'{m}: estimate for dtype={case.get("dtype") or "float64"} data in units of {case.get("scale", 1.0):g} is not '
+                        f'scale**2 times the estimate for the same values as float64 in unit scale (relative deviation {dev:.3g})')
+    # call sequence: the same call again gives the identical result, and results already handed out are unchanged
+    for m in METHODS:
+        again = noise.cov_from_residuals(X, dof=dof, method=m)
+        if not np.array_equal(again, held[m]):
+            return f'{m}: the same call a second time gave a different estimate'
+        if not np.array_equal(raw[m], held[m]):
+            return f'{m}: an estimate handed out earlier changed when the library was called again'
     return None
+
+
+def _typed_dataset(X, lab, case):
+    """Dataset for the unit-scale float64 measurements X with labels lab under the dtype / scale / container / extra keys of the
+    case; returns (dataset, Xu: exactly its measurement values as float64 in unit scale, norm, tm)"""
+    from rsatoolbox.data import Dataset
+    Xin, Xu, norm, _, _, tm = _typed_units(X, {k: case.get(k) for k in ('dtype', 'scale') if case.get(k) is not None})
+    obs = {'cond': _contain(lab, case.get('container'))}
+    kw = {}
+    if case.get('extra'):
+        nobs, P = X.shape
+        obs = {'run': [i % 2 for i in range(nobs)], 'cond': obs['cond'], 'trial': list(range(nobs))[::-1]}
+        kw = dict(descriptors={'subj': 's01', 'session': 1}, channel_descriptors={'roi': ['v%d' % (j % 2) for j in range(P)]})
+    return Dataset(Xin, obs_descriptors=obs, **kw), Xu, norm, tm
+
+
+def _desc_snapshot(ds):
+    import copy
+    return copy.deepcopy((ds.descriptors, ds.obs_descriptors, ds.channel_descriptors))
+
+
+def _desc_same(a, b):
+    if type(a) is not type(b):
+        return False
+    if isinstance(a, (tuple, list)):
+        return len(a) == len(b) and all(_desc_same(x, y) for x, y in zip(a, b))
+    if isinstance(a, dict):
+        return list(a.keys()) == list(b.keys()) and all(_desc_same(a[k], b[k]) for k in a)
+    if isinstance(a, np.ndarray):
+        return a.dtype == b.dtype and a.shape == b.shape and np.array_equal(a, b)
+    return a == b
 
 
 @oracle('C14/dataset-estimators')
@@ -326,27 +523,61 @@ def orc_dataset(case):
     rs = np.random.RandomState(case['seed'])
     C, R, P = case['C'], case['R'], case['P']
     ds, X, labels = _balanced_ds(rs, C, R, P, case.get('order', 'sorted'))
-    keep = X.copy()
+    norm, tm = np.ones((P, P)), 1.0
+    if any(case.get(k) is not None for k in ('dtype', 'scale', 'labels', 'container', 'extra')):
+        ds, X, norm, tm = _typed_dataset(X, _relabel(labels, case.get('labels'), C), case)
+    keep = ds.measurements.copy()
+    snap = _desc_snapshot(ds)
     resid = X - np.array([X[labels == c].mean(0) for c in range(C)])[labels]
-    want_dof = C * R - C
-    for m in ('full', 'diag', 'shrinkage_eye', 'shrinkage_diag'):
-        a = noise.cov_from_measurements(ds, 'cond', method=m)
-        b = noise.cov_from_unbalanced(ds, 'cond', method=m)
-        if not np.array_equal(ds.measurements, keep):
-            return f'{m}: dataset measurements were modified'
+    dof = case.get('dof')
+    want_dof = C * R - C if dof is None else dof
+
+    def untouched(what):
+        if not (np.array_equal(ds.measurements, keep) and ds.measurements.dtype == keep.dtype):
+            return f'{what}: dataset measurements were modified'
+        if not _desc_same(_desc_snapshot(ds), snap):
+            return f'{what}: dataset descriptors were modified'
+        return None
+    for m in METHODS:
+        a_raw = noise.cov_from_measurements(ds, 'cond', dof=dof, method=m)
+        b_raw = noise.cov_from_unbalanced(ds, 'cond', dof=dof, method=m)
+        r = untouched(m)
+        if r:
+            return r
+        a, b = np.asarray(a_raw, dtype=np.float64) / norm, np.asarray(b_raw, dtype=np.float64) / norm
         if m == 'full':
-            if not close(b, _spec_cov(resid, want_dof), 1e-9):
+            if not close(b, _spec_cov(resid, want_dof), 1e-9 * tm):
                 return f'unbalanced full: not the pooled residual covariance with dof = observations - conditions = {want_dof}'
-            if not close(a, _spec_cov(resid, want_dof), 1e-9):
+            if not close(a, _spec_cov(resid, want_dof), 1e-9 * tm):
                 ratio = float(np.trace(a) / np.trace(_spec_cov(resid, want_dof)))
                 return (f'measurement-based full: not the pooled residual covariance with dof = observations - conditions = '
                         f'{want_dof} (trace ratio {ratio:.4f})')
-        if not close(a, b, 1e-8):
+        if m == 'diag' and not close(a, np.diag(np.diag(_spec_cov(resid, want_dof))), 1e-9 * tm):
+            return 'measurement-based diag: not the diagonal of the pooled residual covariance'
+        if not close(a, b, 1e-8 * tm):
             return f'{m}: measurement-based and unbalanced estimators disagree on a balanced design'
-        if np.linalg.cond(a) < 1e10:
-            pa = noise.prec_from_measurements(ds, 'cond', method=m)
-            if not close(pa @ a, np.eye(P), 1e-6):
+        for nm, Mx in (('measurement-based ' + m, a), ('unbalanced ' + m, b)):
+            r = _sym_psd(nm, Mx, tm)
+            if r:
+                return r
+        if np.linalg.cond(a_raw) < 1e10:
+            pa = noise.prec_from_measurements(ds, 'cond', dof=dof, method=m)
+            if not close(pa @ np.asarray(a_raw, dtype=np.float64), np.eye(P), 1e-6 * max(1.0, tm / 100)):
                 return f'{m}: prec_from_measurements is not the inverse'
+            pb = noise.prec_from_unbalanced(ds, 'cond', dof=dof, method=m)
+            if not close(pb @ np.asarray(b_raw, dtype=np.float64), np.eye(P), 1e-6 * max(1.0, tm / 100)):
+                return f'{m}: prec_from_unbalanced is not the inverse'
+            r = untouched('prec ' + m)
+            if r:
+                return r
+        # call sequence: same call again -> identical estimate; the estimate handed out before is unchanged
+        ha, hb = a_raw.copy(), b_raw.copy()
+        a2 = noise.cov_from_measurements(ds, 'cond', dof=dof, method=m)
+        b2 = noise.cov_from_unbalanced(ds, 'cond', dof=dof, method=m)
+        if not (np.array_equal(a2, ha) and np.array_equal(b2, hb)):
+            return f'{m}: the same call a second time gave a different estimate'
+        if not (np.array_equal(a_raw, ha) and np.array_equal(b_raw, hb)):
+            return f'{m}: an estimate handed out earlier changed when the library was called again'
     return None
 
 
@@ -360,21 +591,52 @@ def orc_unbalanced(case):
     names = case.get('names')
     lab = labels if names is None else np.array([names[i] for i in labels])
     X = rs.randn(len(labels), P) + 3 * rs.randn(labels.max() + 1, P)[labels]
-    ds = Dataset(X.copy(), obs_descriptors={'cond': lab.tolist()})
+    norm, tm = np.ones((P, P)), 1.0
+    if any(case.get(k) is not None for k in ('dtype', 'scale', 'container', 'extra')):
+        ds, X, norm, tm = _typed_dataset(X, lab.tolist(), case)
+    else:
+        ds = Dataset(X.copy(), obs_descriptors={'cond': lab.tolist()})
+    keep, snap = ds.measurements.copy(), _desc_snapshot(ds)
     resid = X - np.array([X[labels == c].mean(0) for c in range(labels.max() + 1)])[labels]
     dof = len(labels) - len(set(labels.tolist()))
-    got = noise.cov_from_unbalanced(ds, 'cond', method='full')
-    if not close(got, _spec_cov(resid, dof), 1e-9):
+    got = noise.cov_from_unbalanced(ds, 'cond', method='full') / norm
+    if not close(got, _spec_cov(resid, dof), 1e-9 * tm):
         return 'unbalanced full estimate is not the covariance of the residuals around their own condition means'
-    gd = noise.cov_from_unbalanced(ds, 'cond', method='diag')
-    if not close(gd, np.diag(np.diag(_spec_cov(resid, dof))), 1e-9):
+    gd = noise.cov_from_unbalanced(ds, 'cond', method='diag') / norm
+    if not close(gd, np.diag(np.diag(_spec_cov(resid, dof))), 1e-9 * tm):
         return 'unbalanced diag estimate is not the diagonal of the full one'
+    for m in ('shrinkage_eye', 'shrinkage_diag'):
+        v = _judge(np.asarray(noise.cov_from_unbalanced(ds, 'cond', method=m), dtype=np.float64) / norm, resid, dof, m, tol=tm)
+        if v:
+            return 'unbalanced ' + v
     cv = noise.cov_from_unbalanced(ds, 'cond', method='shrinkage_diag')
     if np.all(np.isfinite(cv)) and np.linalg.cond(cv) < 1e10:
         pr = noise.prec_from_unbalanced(ds, 'cond', method='shrinkage_diag')
-        if not close(pr @ cv, np.eye(P), 1e-6):
+        if not close(pr @ np.asarray(cv, dtype=np.float64), np.eye(P), 1e-6 * max(1.0, tm / 100)):
             return 'prec_from_unbalanced is not the inverse of cov_from_unbalanced'
+    if case.get('dofs') is not None:
+        for k in case['dofs']:
+            gk = noise.cov_from_unbalanced(ds, 'cond', dof=k, method='full') / norm
+            if not close(gk, _spec_cov(resid, k), 1e-9 * tm):
+                return f'unbalanced full estimate with dof={k!r} passed in is not the residual cross-product divided by that dof'
+    if not (np.array_equal(ds.measurements, keep) and ds.measurements.dtype == keep.dtype):
+        return 'dataset measurements were modified'
+    if not _desc_same(_desc_snapshot(ds), snap):
+        return 'dataset descriptors were modified'
     return None
+
+
+def _dof_arg(case, dofs):
+    """the dof argument in the container / scalar type the case asks for, and the dof that element i must be estimated with"""
+    mode = case['dofmode']
+    if mode == 'none':
+        return None, (lambda i: None)
+    if mode == 'scalar':
+        k = {'int': int, 'npint': np.int64, 'float': float, 'npfloat': np.float64}[case.get('dofscalar', 'int')](dofs[0])
+        return k, (lambda i: dofs[0])
+    cont = case.get('dofcontainer', 'list')
+    arg = list(dofs) if cont == 'list' else (tuple(dofs) if cont == 'tuple' else np.array(dofs))
+    return arg, (lambda i: dofs[i])
 
 
 @oracle('C14/lists')
@@ -385,45 +647,184 @@ def orc_lists(case):
     mats = [rs.randn(n, P) for n in case['ns']]
     dofs = case['dofs']
     m = case['method']
+    cont = case.get('container', 'list')
+    dof_arg, dof_of = _dof_arg(case, dofs)
+    keeps = [X.copy() for X in mats]
     if case['kind'] == 'residuals':
-        dof_arg = dofs if case['dofmode'] == 'list' else (dofs[0] if case['dofmode'] == 'scalar' else None)
-        got = noise.cov_from_residuals(mats, dof=dof_arg, method=m)
+        arg = mats if cont == 'list' else (tuple(mats) if cont == 'tuple' else np.stack(mats))
+        got = noise.cov_from_residuals(arg, dof=dof_arg, method=m)
         if not isinstance(got, list) or len(got) != len(mats):
             return f'list input did not yield one estimate per element (got {type(got).__name__} of length {len(got)})'
         for i, X in enumerate(mats):
-            d = dofs[i] if case['dofmode'] == 'list' else (dofs[0] if case['dofmode'] == 'scalar' else None)
+            d = dof_of(i)
             want = noise.cov_from_residuals(X, dof=d, method=m)
             if not (isinstance(got[i], np.ndarray) and got[i].shape == want.shape and close(got[i], want, 1e-9)):
                 return f'element {i} of the list result is not the estimate of element {i} with its own dof ({d})'
+            if m == 'full':
+                Xc = keeps[i] - keeps[i].mean(0, keepdims=True)
+                if not close(got[i], _spec_cov(Xc, X.shape[0] - 1 if d is None else d), 1e-9):
+                    return f'element {i} of the list result is not the residual covariance of element {i} with dof {d}'
         if all(np.linalg.cond(g) < 1e10 for g in got):
-            pr = noise.prec_from_residuals(mats, dof=dof_arg, method=m)
+            pr = noise.prec_from_residuals(arg, dof=dof_arg, method=m)
+            if len(pr) != len(mats):
+                return f'{len(pr)} precisions for {len(mats)} inputs'
             for i in range(len(mats)):
                 if not close(pr[i] @ got[i], np.eye(P), 1e-6):
                     return f'precision {i} is not the inverse of covariance {i}'
+        held = [g.copy() for g in got]
+        again = noise.cov_from_residuals(arg, dof=dof_arg, method=m)
+        if not all(np.array_equal(x, y) for x, y in zip(again, held)):
+            return 'the same call a second time gave different estimates'
+        if not all(np.array_equal(x, y) for x, y in zip(got, held)):
+            return 'estimates handed out earlier changed when the library was called again'
     else:
         from rsatoolbox.data import Dataset
         dss = []
         for X in mats:
             lab = [i % 2 for i in range(X.shape[0])]
             dss.append(Dataset(X, obs_descriptors={'cond': lab}))
-        dof_arg = dofs if case['dofmode'] == 'list' else (dofs[0] if case['dofmode'] == 'scalar' else None)
+        arg = dss if cont == 'list' else tuple(dss)
         fn = noise.cov_from_unbalanced if case['kind'] == 'unbalanced' else noise.cov_from_measurements
-        got = fn(dss, 'cond', dof=dof_arg, method=m)
+        got = fn(arg, 'cond', dof=dof_arg, method=m)
         if not isinstance(got, list) or len(got) != len(dss):
             return 'list of datasets did not yield one estimate per element'
         for i, d_ in enumerate(dss):
-            d = dofs[i] if case['dofmode'] == 'list' else (dofs[0] if case['dofmode'] == 'scalar' else None)
+            d = dof_of(i)
             want = noise.cov_from_unbalanced(d_, 'cond', dof=d, method=m)
             if not close(got[i], want, 1e-9):
                 return f'element {i} of the list result is not the estimate of dataset {i} with its own dof ({d})'
+            if m == 'full':
+                X = keeps[i]
+                lab = np.arange(X.shape[0]) % 2
+                resid = X - np.array([X[lab == c].mean(0) for c in (0, 1)])[lab]
+                if not close(got[i], _spec_cov(resid, X.shape[0] - 2 if d is None else d), 1e-9):
+                    return f'element {i} of the list result is not the pooled residual covariance of dataset {i} with dof {d}'
+        if all(np.linalg.cond(g) < 1e10 for g in got):
+            pfn = noise.prec_from_unbalanced if case['kind'] == 'unbalanced' else noise.prec_from_measurements
+            pr = pfn(arg, 'cond', dof=dof_arg, method=m)
+            if not isinstance(pr, list) or len(pr) != len(dss):
+                return 'list of datasets did not yield one precision per element'
+            for i in range(len(dss)):
+                if not close(pr[i] @ got[i], np.eye(P), 1e-6):
+                    return f'precision {i} is not the inverse of covariance {i}'
+        if any(not np.array_equal(d_.measurements, k) for d_, k in zip(dss, keeps)):
+            return 'measurements of a dataset in the list were modified'
+    if any(not np.array_equal(X, k) for X, k in zip(mats, keeps)):
+        return 'an element of the input list was modified'
     return None
+
+
+def _seq_call(kind, prec, X, lab, method, dof):
+    import rsatoolbox.data.noise as noise
+    from rsatoolbox.data import Dataset
+    if kind == 'residuals':
+        return (noise.prec_from_residuals if prec else noise.cov_from_residuals)(X, dof=dof, method=method)
+    fn = {('measurements', False): noise.cov_from_measurements, ('measurements', True): noise.prec_from_measurements,
+          ('unbalanced', False): noise.cov_from_unbalanced, ('unbalanced', True): noise.prec_from_unbalanced}[(kind, prec)]
+    return fn(Dataset(X, obs_descriptors={'cond': list(lab)}), 'cond', dof=dof, method=method)
+
+
+@oracle('C14/sequence')
+def orc_sequence(case):
+    """call sequences: estimate(A); estimate(B) with B of the SAME shape / labels but other content; estimate(A) again.
+    The estimate of B must be the estimate B gets in isolation from its own spec (a cache keyed by shape / labels would return A's),
+    A's estimate held by the caller must not change, and -- after the caller scribbles over its copy -- a new call for A must return
+    the original values again (no shared buffer / memoised object)."""
+    rs = np.random.RandomState(case['seed'])
+    C, R, P = case['C'], case['R'], case['P']
+    kind, prec, m, dof = case['kind'], case['prec'], case['method'], case.get('dof')
+    lab = np.repeat(np.arange(C), R)
+    A = rs.randn(C * R, P) + 2 * rs.randn(C, P)[lab]
+    B = 3 * rs.randn(C * R, P) + 1
+    if case.get('same_moments'):
+        # B = A with channels 0 and 1 exchanged: same shape, same sum, same labels -- only a content-exact key tells them apart
+        B = A.copy()
+        B[:, [0, 1]] = B[:, [1, 0]]
+
+    def judge(r, X, who):
+        if kind == 'residuals':
+            res, d = X - X.mean(0, keepdims=True), (C * R - 1 if dof is None else dof)
+        else:
+            res, d = X - np.array([X[lab == c].mean(0) for c in range(C)])[lab], (C * R - C if dof is None else dof)
+        est = np.linalg.inv(r) if prec else r
+        v = _judge(est, res, d, m, tol=100.0)
+        return None if v is None else f'{who}: {v}'
+    rA = _seq_call(kind, prec, A.copy(), lab, m, dof)
+    hA = rA.copy()
+    rB = _seq_call(kind, prec, B.copy(), lab, m, dof)
+    if not np.array_equal(rA, hA):
+        return 'the estimate for A held by the caller changed when B was estimated'
+    v = judge(rA, A, 'first estimate (A)') or judge(rB, B, 'estimate for B (same shape and labels as A, other content)')
+    if v:
+        return v
+    rA[...] = -7.0
+    rA2 = _seq_call(kind, prec, A.copy(), lab, m, dof)
+    if not np.array_equal(rA2, hA):
+        return 'estimating A again (after the caller overwrote its copy of the first result, and after B) did not reproduce the first estimate'
+    if np.shares_memory(rA2, rA) or np.shares_memory(rA2, rB):
+        return 'two calls returned arrays that share memory'
+    return None
+
+
+_HASHSEED_SCRIPT = r'''
+import json, sys
+from contracts import C14
+probs = []
+for name, case in json.loads(sys.stdin.read()):
+    r = C14.ORACLES_C[name](case)
+    if r is not None:
+        probs.append('%s %s: %s' % (name, json.dumps(case), r))
+print('C14-HASHSEED-RESULT ' + json.dumps(probs))
+'''
+
+
+def _hashseed_cases(thorough):
+    cases = []
+    for kind in ('str', 'gap', 'float'):
+        for order in ('shuffled', 'interleaved'):
+            cases.append(('C14/dataset-estimators', dict(seed=3, C=3, R=2, P=3, order=order, labels=kind)))
+            if thorough:
+                cases.append(('C14/dataset-estimators', dict(seed=4, C=4, R=3, P=2, order=order, labels=kind, container='ndarray')))
+    for labels in ([2, 0, 0, 1, 2, 2], [1, 1, 0, 2, 0, 0, 0], [0, 1, 2, 3, 3, 2, 4, 0]):
+        for names in (['b', 'c', 'a', 'cond10', 'cond9'], [10, -3, 7, 1000, 0]):
+            cases.append(('C14/unbalanced', dict(seed=5, labels=labels, P=2, names=names)))
+    return cases
+
+
+@oracle('C14/hashseed')
+def orc_hashseed(case):
+    """environment: a NEW interpreter started with another PYTHONHASHSEED (str / int / float labels go through sets / dicts /
+    np.unique in the library) judges the same dataset cases by the oracles above -- every clause must hold there too"""
+    import json
+    import os
+    import subprocess
+    import sys
+    import rsatoolbox
+    root = os.path.dirname(os.path.dirname(os.path.abspath(__file__)))
+    lib = os.path.dirname(os.path.dirname(os.path.abspath(rsatoolbox.__file__)))      # the tree under test in THIS interpreter
+    env = dict(os.environ, PYTHONHASHSEED=str(case['hashseed']), MPLBACKEND='Agg', PYTHONDONTWRITEBYTECODE='1',
+               PYTHONPATH=os.pathsep.join([lib, root] + [p for p in os.environ.get('PYTHONPATH', '').split(os.pathsep) if p]))
+    pr = subprocess.run([sys.executable, '-W', 'ignore', '-c', _HASHSEED_SCRIPT], input=json.dumps(_hashseed_cases(case['thorough'])),
+                        capture_output=True, text=True, env=env, cwd=root, timeout=300)
+    lines = [ln for ln in pr.stdout.splitlines() if ln.startswith('C14-HASHSEED-RESULT ')]
+    if pr.returncode != 0 or not lines:
+        return f'interpreter with PYTHONHASHSEED={case["hashseed"]} failed (rc {pr.returncode}): {pr.stderr[-400:]}'
+    probs = json.loads(lines[-1][len('C14-HASHSEED-RESULT '):])
+    if probs:
+        return f'under PYTHONHASHSEED={case["hashseed"]}: {probs[0]} ({len(probs)} failures)'
+    return None
+
+
+ORACLES_C = {o.oracle_name: o for o in (orc_estimators, orc_dataset, orc_unbalanced, orc_lists, orc_sequence)}
 
 
 def tier_c(run, thorough):
     bds = []
     bd = Bounded(run, 'C14/estimators', 'C14/cov_from_residuals/oracle/estimators',
                  'seeded residual matrices n in 2..%d x p in 1..%d incl. more channels than samples and 2-row / square-wave inputs; '
-                 'dof None / given; 4 methods' % ((12, 8) if thorough else (8, 5)), function='_estimate_covariance')
+                 'dof None / given; 4 methods; sweeps: int64/int32/int16/uint8/float32 data, units 1e-26..1e+12 (float64) and '
+                 '1e-6..1e+6 (float32), per-channel units, duplicated channel%s; every case: same call twice, held results unchanged'
+                 % ((12, 8, ', sizes up to 200x3 / 60x24 / 4x30') if thorough else (8, 5, '')), function='_estimate_covariance')
     for seed in range(4 if thorough else 2):
         for n in ([2, 3, 4, 6, 12] if thorough else [2, 3, 5, 8]):
             for p in ([1, 2, 3, 5, 8] if thorough else [1, 2, 3, 5]):
@@ -432,10 +833,58 @@ def tier_c(run, thorough):
                              'single-channel' if p == 1 else ('two-rows' if n == 2 else 'generic'), function='_covariance_')
         for n in (4, 6):
             bd.check(orc_estimators, dict(seed=seed, n=n, p=3, dof=None, squarewave=True), 'squarewave', function='_covariance_diag')
+    shapes = [(5, 3), (8, 2), (3, 5)] + ([(2, 4), (12, 1), (20, 6)] if thorough else [])
+    for seed in range(3 if thorough else 1):
+        # typed data: the estimate for integer / float32 data is the one for the same values as float64
+        for dt in _INT_DTYPES + ('float32',):
+            for (n, p) in shapes:
+                for dof in (None, n + 2):
+                    bd.check(orc_estimators, dict(seed=10 + seed, n=n, p=p, dof=dof, dtype=dt), 'typed:' + dt, function='_check_demean')
+        # units: uniform positive scale (every estimate scales with scale**2, intensities stay in [0,1] and the same)
+        for sc in (1e-26, 1e-12, 1e-6, 1e6, 1e12):
+            for (n, p) in shapes:
+                bd.check(orc_estimators, dict(seed=20 + seed, n=n, p=p, dof=None, scale=sc), 'units:float64', function='_covariance_')
+            bd.check(orc_estimators, dict(seed=20 + seed, n=6, p=3, dof=8, scale=sc, squarewave=True), 'units:float64,squarewave',
+                     function='_covariance_diag')
+        for sc in (1e-6, 1e-3, 1e3, 1e6):
+            for (n, p) in shapes[:2]:
+                bd.check(orc_estimators, dict(seed=30 + seed, n=n, p=p, dof=None, scale=sc, dtype='float32'), 'units:float32,moderate',
+                         function='_covariance_')
+        if False:  # pending triage: typed:float32,units:extreme
+            # float32 residuals in units of 1e-12 / 1e+12 (e.g. MEG data in tesla): the fourth powers xt_x ** 2 of the shrinkage
+            # estimators are taken in float32 and under- / overflow: shrinkage_eye leaves [0,1], shrinkage_diag does not shrink
+            for sc in (1e-12, 1e12):
+                for (n, p) in shapes[:2]:
+                    bd.check(orc_estimators, dict(seed=30 + seed, n=n, p=p, dof=None, scale=sc, dtype='float32'),
+                             'typed:float32,units:extreme', function='_covariance_')
+        for chs in ([1e-3, 1.0, 1e3], [1e-9, 1.0, 1e9], [1e6, 1e-6], [1e-12, 1e-12, 1.0]):
+            for (n, p) in shapes:
+                if p > 1:
+                    bd.check(orc_estimators, dict(seed=40 + seed, n=n, p=p, dof=None, chscale=chs), 'units:per-channel',
+                             function='_covariance_diag')
+        # repeated values: a channel that duplicates another (correlation exactly 1); a channel without variance; a single row
+        for (n, p) in ((6, 3), (4, 5)):
+            bd.check(orc_estimators, dict(seed=50 + seed, n=n, p=p, dof=None, dup_channel=[0, p - 1]), 'duplicate-channel',
+                     function='_covariance_diag')
+        if False:  # pending triage: zero-variance-channel
+            # one constant channel (or a single residual row with dof passed in: all channels): shrinkage_diag divides by the
+            # standard deviations, lambda becomes NaN and the WHOLE estimate (diagonal included) is NaN
+            for (n, p) in ((6, 3), (4, 5)):
+                bd.check(orc_estimators, dict(seed=50 + seed, n=n, p=p, dof=None, const_channel=1), 'zero-variance-channel',
+                         function='_covariance_diag')
+            bd.check(orc_estimators, dict(seed=50 + seed, n=1, p=3, dof=2), 'zero-variance-channel', function='_covariance_diag')
+    if thorough:
+        for seed in range(2):
+            for (n, p) in ((200, 3), (60, 24), (4, 30), (2, 12), (37, 7)):
+                for extra in (dict(), dict(dtype='int16'), dict(scale=1e-12), dict(dtype='float32')):
+                    bd.check(orc_estimators, dict(seed=60 + seed, n=n, p=p, dof=None, **extra), 'sizes', function='_covariance_')
     bd.done()
     bds.append(bd)
     bd = Bounded(run, 'C14/dataset-estimators', 'C14/cov_from_measurements/oracle/balanced-agreement',
-                 'balanced designs C in 2..4, R in 2..4, P in 2..4, sorted / shuffled / interleaved row order, 4 methods',
+                 'balanced designs C in 2..4, R in 2..4, P in 2..4, sorted / shuffled / interleaved row order, 4 methods; sweeps: '
+                 'str / non-contiguous int / float / bool labels as list / ndarray / tuple, further descriptors present, C = 1, P = 1, '
+                 'dof passed in (int, float), float32 measurements, units 1e-26..1e+12%s; every case: descriptors and measurements '
+                 'unchanged, same call twice' % (', designs up to 10x10x5 and 8x2x12' if thorough else ''),
                  function='cov_from_measurements')
     for seed in range(2 if thorough else 1):
         for C in (2, 3, 4):
@@ -444,11 +893,48 @@ def tier_c(run, thorough):
                     for order in ('sorted', 'shuffled', 'interleaved'):
                         bd.check(orc_dataset, dict(seed=seed, C=C, R=R, P=P, order=order),
                                  'C==R' if C == R else 'C!=R', function='_check_demean' if C != R else 'cov_from_measurements')
+    designs = [(3, 2, 3), (2, 3, 2)] + ([(4, 3, 2), (5, 2, 4)] if thorough else [])
+    for seed in range(2 if thorough else 1):
+        for (C, R, P) in designs:
+            for order in ('shuffled', 'interleaved'):
+                for kind in ('str', 'gap', 'float') + (('bool',) if C == 2 else ()):
+                    for cont in ('list', 'ndarray', 'tuple'):
+                        bd.check(orc_dataset, dict(seed=10 + seed, C=C, R=R, P=P, order=order, labels=kind, container=cont),
+                                 f'labels:{kind},{cont}', function='cov_from_measurements')
+                bd.check(orc_dataset, dict(seed=10 + seed, C=C, R=R, P=P, order=order, labels='str', extra=True), 'further-descriptors',
+                         function='cov_from_measurements')
+                for dof in (5, 2.5, 1):
+                    bd.check(orc_dataset, dict(seed=10 + seed, C=C, R=R, P=P, order=order, dof=dof), 'dof-given',
+                             function='cov_from_measurements')
+                bd.check(orc_dataset, dict(seed=10 + seed, C=C, R=R, P=P, order=order, dtype='float32'), 'typed:float32',
+                         function='cov_from_measurements')
+                for sc in (1e-26, 1e-12, 1e6, 1e12):
+                    bd.check(orc_dataset, dict(seed=10 + seed, C=C, R=R, P=P, order=order, scale=sc), 'units:float64',
+                             function='cov_from_measurements')
+                if False:  # pending triage: typed:integer-dataset
+                    # a Dataset keeps integer measurements as they are; cov_from_unbalanced (matrix -= means[inverse]) and
+                    # cov_from_measurements (_check_demean: matrix -= np.mean(...)) subtract float means IN PLACE -> UFuncTypeError
+                    for dt in _INT_DTYPES:
+                        bd.check(orc_dataset, dict(seed=10 + seed, C=C, R=R, P=P, order=order, dtype=dt), 'typed:integer-dataset',
+                                 function='cov_from_unbalanced')
+        for (C, R, P) in ((1, 4, 2), (1, 2, 3)):
+            for order in ('sorted',):
+                bd.check(orc_dataset, dict(seed=20 + seed, C=C, R=R, P=P, order=order), 'single-condition', function='_check_demean')
+        for (C, R, P) in ((3, 2, 1), (2, 2, 1), (1, 3, 1)):
+            for order in ('sorted', 'shuffled'):
+                bd.check(orc_dataset, dict(seed=20 + seed, C=C, R=R, P=P, order=order), 'single-channel', function='_check_demean')
+    if thorough:
+        for seed in range(2):
+            for (C, R, P) in ((10, 10, 5), (6, 5, 8), (8, 2, 12), (2, 9, 3), (7, 3, 3)):
+                for order in ('sorted', 'shuffled', 'interleaved'):
+                    bd.check(orc_dataset, dict(seed=30 + seed, C=C, R=R, P=P, order=order, labels='str' if seed else 'int'), 'sizes',
+                             function='_check_demean')
     bd.done()
     bds.append(bd)
     bd = Bounded(run, 'C14/unbalanced', 'C14/cov_from_unbalanced/oracle/residual-covariance',
-                 'all label sequences of length <= %d over <= 3 conditions (each used), int and string labels, P=2' % (6 if thorough else 5),
-                 exhaustive=True, function='cov_from_unbalanced')
+                 'all label sequences of length <= %d over <= 3 conditions (each used), int and string labels, P=2; for length <= 4 also '
+                 'non-contiguous int / float labels, ndarray / tuple descriptors, dof passed in, float32 measurements, units 1e-12 / 1e+12'
+                 % (6 if thorough else 5), exhaustive=True, function='cov_from_unbalanced')
     for L in range(3, (7 if thorough else 6)):
         for labels in itertools.product(range(3), repeat=L):
             k = max(labels) + 1
@@ -458,17 +944,93 @@ def tier_c(run, thorough):
             if L <= 4:
                 bd.check(orc_unbalanced, dict(seed=L, labels=list(labels), P=2, names=['b', 'c', 'a']), 'str-labels',
                          function='cov_from_unbalanced')
+                bd.check(orc_unbalanced, dict(seed=L, labels=list(labels), P=2, names=[10, -3, 7]), 'gap-int-labels',
+                         function='cov_from_unbalanced')
+                bd.check(orc_unbalanced, dict(seed=L, labels=list(labels), P=2, names=[0.5, 1.5, -2.0]), 'float-labels',
+                         function='cov_from_unbalanced')
+                bd.check(orc_unbalanced, dict(seed=L, labels=list(labels), P=2, names=['cond10', 'cond9', 'c'], container='ndarray'),
+                         'str-labels,ndarray', function='cov_from_unbalanced')
+                bd.check(orc_unbalanced, dict(seed=L, labels=list(labels), P=2, names=[10, -3, 7], container='tuple', extra=True),
+                         'gap-int-labels,tuple', function='cov_from_unbalanced')
+                bd.check(orc_unbalanced, dict(seed=L, labels=list(labels), P=2, dofs=[1, 3, 2.5]), 'dof-given',
+                         function='cov_from_unbalanced')
+                bd.check(orc_unbalanced, dict(seed=L, labels=list(labels), P=2, dtype='float32'), 'typed:float32',
+                         function='cov_from_unbalanced')
+                for sc in (1e-12, 1e12):
+                    bd.check(orc_unbalanced, dict(seed=L, labels=list(labels), P=2, scale=sc), 'units:float64',
+                             function='cov_from_unbalanced')
+                if False:  # pending triage: typed:integer-dataset
+                    bd.check(orc_unbalanced, dict(seed=L, labels=list(labels), P=2, dtype='int16'), 'typed:integer-dataset',
+                             function='cov_from_unbalanced')
     bd.done()
     bds.append(bd)
+    if thorough:
+        bd = Bounded(run, 'C14/unbalanced-sizes', 'C14/cov_from_unbalanced/oracle/residual-covariance',
+                     '40 seeded unbalanced designs: 2..6 conditions, group sizes 1..9 (at least one group of 2), interleaved rows, '
+                     'P in 1..6, int / str / float labels', function='cov_from_unbalanced')
+        for seed in range(40):
+            rs = np.random.RandomState(1000 + seed)
+            k = int(rs.randint(2, 7))
+            sizes = rs.randint(1, 10, size=k)
+            sizes[rs.randint(k)] += 1
+            labels = np.repeat(np.arange(k), sizes)[rs.permutation(int(sizes.sum()))]
+            # condition indices in first-appearance order (the oracle's names list is indexed by them)
+            first = {}
+            for v in labels.tolist():
+                first.setdefault(v, len(first))
+            labels = [first[v] for v in labels.tolist()]
+            names = [None, ['b', 'c', 'a', 'cond10', 'cond9', 'B'], [0.5, 1.5, -2.0, 0.25, 1e3, -0.125]][seed % 3]
+            case = dict(seed=seed, labels=labels, P=int(rs.randint(1, 7)))
+            if names is not None:
+                case['names'] = names
+            bd.check(orc_unbalanced, case, 'sizes', function='cov_from_unbalanced')
+        bd.done()
+        bds.append(bd)
     bd = Bounded(run, 'C14/lists', 'C14/cov_from_residuals/oracle/list-plumbing',
-                 'lists of 2-3 inputs of different sizes; dof None / scalar / list; residuals, measurements, unbalanced; 4 methods',
+                 'lists of 1-5 inputs of different or equal sizes as list / tuple / 3-D array; dof None / scalar (int, numpy int, float) '
+                 '/ list, tuple, ndarray; residuals, measurements, unbalanced; 4 methods',
                  function='cov_from_residuals')
     for kind in ('residuals', 'measurements', 'unbalanced'):
         for dofmode in ('none', 'scalar', 'list'):
-            for m in ('full', 'diag', 'shrinkage_eye', 'shrinkage_diag'):
+            for m in METHODS:
                 for ns in ([6, 8], [5, 7, 9]):
                     bd.check(orc_lists, dict(seed=1, P=3, ns=ns, dofs=[n - 2 for n in ns], kind=kind, dofmode=dofmode, method=m),
                              f'{kind},dof={dofmode}', function='cov_from_' + kind)
+                # sizes: one element; five elements; equal shapes with different content (and dofs in non-monotone order)
+                for ns, dofs in (([7], [4]), ([6, 6, 6], [5, 3, 4]), ([9, 5, 8, 6, 7], [3, 9, 4, 8, 5])):
+                    for cont in ('list', 'tuple') + (('array3d',) if kind == 'residuals' and len(set(ns)) == 1 else ()):
+                        variants = [dict()]
+                        if dofmode == 'list':
+                            variants = [dict(dofcontainer=c) for c in ('list', 'tuple', 'ndarray')]
+                        elif dofmode == 'scalar':
+                            variants = [dict(dofscalar=c) for c in ('npint', 'float')]
+                        if not thorough and m in ('diag', 'shrinkage_eye'):
+                            variants = variants[:1]
+                        for v in variants:
+                            bd.check(orc_lists, dict(seed=2, P=3, ns=ns, dofs=dofs, kind=kind, dofmode=dofmode, method=m,
+                                                     container=cont, **v),
+                                     f'{kind},dof={dofmode}' + ''.join(':' + x for x in v.values()) + f',{cont}', function='cov_from_' + kind)
+    bd.done()
+    bds.append(bd)
+    bd = Bounded(run, 'C14/sequence', 'C14/cov_from_residuals/oracle/call-sequence',
+                 'estimate(A), estimate(B), estimate(A) with B of the shape and labels of A (other content / two channels exchanged); '
+                 '3x3x3 designs; cov_ and prec_ of residuals, measurements, unbalanced; 4 methods; dof None / given',
+                 function='cov_from_residuals')
+    for kind in ('residuals', 'measurements', 'unbalanced'):
+        for prec in (False, True):
+            for m in METHODS:
+                for same in (False, True):
+                    for dof in ((None, 7) if thorough else (None,)):
+                        bd.check(orc_sequence, dict(seed=7, C=3, R=3, P=3, kind=kind, prec=prec, method=m, same_moments=same, dof=dof),
+                                 'call-sequence', function=('prec_from_' if prec else 'cov_from_') + kind)
+    bd.done()
+    bds.append(bd)
+    seeds = (1, 2, 12345, 4294967295) if thorough else (1,)
+    bd = Bounded(run, 'C14/hashseed', 'C14/cov_from_unbalanced/oracle/hashseed',
+                 'the dataset / unbalanced oracles on %d str / int / float labelled designs in a new interpreter started with '
+                 'PYTHONHASHSEED = %s' % (len(_hashseed_cases(thorough)), ', '.join(map(str, seeds))), function='cov_from_unbalanced')
+    for hs in seeds:
+        bd.check(orc_hashseed, dict(hashseed=hs, thorough=bool(thorough)), 'other-hash-seed', function='cov_from_unbalanced')
     bd.done()
     bds.append(bd)
     return bds
